@@ -185,6 +185,7 @@ class FakePxssh(pxssh.pxssh):
         self.child_fd = 99999
         self.delaybeforesend = None
         self.delayafterread = None
+        self.chunk = None           # largest piece one read delivers (None: whatever was asked for)
         import types
         # spawn.flag_eof is a property stored on the pty process object
         self.ptyproc = types.SimpleNamespace(flag_eof=False, terminated=False, closed=False, pid=None, exitstatus=None,
@@ -201,7 +202,8 @@ class FakePxssh(pxssh.pxssh):
             timeout = self.timeout
         s = self.server
         if s.out:
-            data, s.out = s.out[:size], s.out[size:]
+            n = size if self.chunk is None else max(1, min(size, self.chunk))
+            data, s.out = s.out[:n], s.out[n:]
             b = data.encode('utf-8')
             r = self._decoder.decode(b, final=False)
             self._log(r, 'read')
